@@ -139,7 +139,9 @@ CLAIMED = {
     "C14": dict(
         text="Lean 4 theorems (any field): for every pixel set and every weights, if the folded pixel values follow Σ a_m tᵐ the data "
              "moments are the Hankel matrix of the weight moments applied to a (normal equations); the coded 2x2 / 3x3 adjugate "
-             "inverses solve the Hankel system; hence exact recovery for 1-3 angular terms wherever the determinant is non-zero. "
+             "inverses solve the Hankel system; hence exact recovery for 1-3 angular terms wherever the determinant is non-zero; the "
+             "per-radius scaling inverse(p/s)/s the code applies against under-/overflow is exact in field arithmetic, degenerate "
+             "branches included (solve2_scaled, solve3_scaled). "
              "Tie: Distributions(...).image(IM).cos() vs an executable Lean model of origin decoding, rmax keywords, folding, "
              "bins, weights, sin weighting and both bin methods (1e-9 on well-conditioned radii). Oracle: exact synthetic images "
              "over all shapes/origins/rmax/orders 0-8/odd/methods/weights; anisotropy_parameter on noiseless curves.",
